@@ -97,3 +97,29 @@ extern "C" void h_cross_thread() {
     VP_ASSERT(ran_at[1] < ran_at[2] && ran_at[2] < ran_at[3], "one submitter's tasks keep their order");
     VP_REACH("cross_thread");
 }
+
+// ---- re-run: a loop that has stopped is run again; submissions from another thread during the second run must still wake it.
+// First run (kOnce): a task submits another one through the thread-safe entry point during the pass in which the loop ends, so that
+// task is served by the shutdown drain and the wake-up request it committed is still outstanding when the loop stops.
+extern "C" void h_rerun() {
+    reset(); loop_tid = pthread_self();
+    {
+        BACKEND loop; XL = &loop;
+        bool inner = nondet_bool();                                                   // with / without the outstanding request
+        if (inner) loop.runNext([] { mark(0); XL->runInLoop([] { mark(1); }, "inner"); }, "outer");
+        else { loop.runNext([] { mark(0); }, "outer"); loop.runInLoop([] { mark(1); }, "plain"); }
+        loop.runLoop(Loop::Mode::kOnce);
+        VP_ASSERT(ran[0] == 1 && ran[1] == 1, "tasks pending when the loop stops are run during shutdown");
+        XAPI = 0;
+        XT = new std::thread([] {
+            xsubmit([] { mark(2); }, "a");
+            xsubmit([] { mark(3); XL->exitLoop(std::chrono::milliseconds(0)); }, "exit");
+        });
+        loop.runLoop(Loop::Mode::kForever);                                           // second run: returns only if the foreign submissions still wake the loop
+        XT->join(); delete XT;
+        for (int i = 4; i < NTASK; i++) ran[i] = 1;
+    }
+    for (int i = 0; i < 4; i++) { VP_ASSERT(ran[i] == 1, "every task is invoked exactly once, also across a re-run of the loop"); VP_ASSERT(!off_thread[i], "on the loop thread"); }
+    VP_ASSERT(ran_at[2] < ran_at[3], "one submitter's tasks keep their order");
+    VP_REACH("rerun");
+}
